@@ -381,7 +381,7 @@ func TestPropTruncations(t *testing.T) {
 }
 
 var tokens = []string{"{", "}", "{{", "}}", "<", "</", ">", "/>", "\"", "'", "`", "@", "if ", "else", "} else {", "for ", "switch ", "case ", "default:", "templ ", "css ", "script ", "<!--", "-->", "//", "/*", "*/",
-	"...", "?=", "<script>", "</script>", "<style>", "</style>", "\r\n", "\n", "\t", " ", "é", "😀", "\xff", "\xc3", "{ children... }", "{! ", "package ", "import ", "(", ")", "=", "={", "={ ", "\\", "$", ":", ";", "<div>", "</div>", "<br>", "<br/>", "x", "\x00"}
+	"...", "?=", "<script>", "</script>", "<style>", "</style>", "\r\n", "\n", "\t", " ", "é", "😀", "\xff", "\xc3", "{ children... }", "{! ", "package ", "import ", "(", ")", "=", "={", "={ ", "\\", "$", ":", ";", "<div>", "</div>", "<br>", "<br/>", "x", "\x00", "\ufeff"}
 
 var genMutated = rapid.Custom(func(t *rapid.T) string {
 	seeds := corpus.Seeds()
@@ -440,6 +440,27 @@ var genMutated = rapid.Custom(func(t *rapid.T) string {
 	}
 	return s
 })
+
+// filePrefixes: what editors and tools put in front of a file's first byte.
+var filePrefixes = []string{"\ufeff", "\ufeff\ufeff", "\xef\xbb", "\ufeff\n", "\ufeff// c\n", "\n\n", " ", "\t", "\r\n", "\x00", "\u200b", "#!/usr/bin/env templ\n", "\ufffe"}
+
+// TestPropPrefixes puts each of them in front of every seed file.
+func TestPropPrefixes(t *testing.T) {
+	shard, shards := ev.Shard()
+	n := 0
+	for si, sd := range corpus.Seeds() {
+		if si%shards != shard || len(sd.Text) > 20000 {
+			continue
+		}
+		for _, pre := range filePrefixes {
+			n++
+			if err := decide(pre+sd.Text, nil, false); err != nil {
+				fail(t, pre+sd.Text, err)
+			}
+		}
+	}
+	recTotal.ClassN("seed files behind a byte order mark or other leading bytes", n)
+}
 
 func TestPropMutations(t *testing.T) {
 	rapid.Check(t, func(t *rapid.T) {
